@@ -89,15 +89,15 @@ func bindRefs(r *rng, p Project) Project {
 // ---- run1: execute one (world, tape) in this fresh process --------------------
 
 type Run1Out struct {
-	Violation *Violation `json:"violation,omitempty"`
+	Violation *Violation  `json:"violation,omitempty"`
 	All       []Violation `json:"all,omitempty"`
-	EventHash uint64     `json:"event_hash"`
-	ObsHash   uint64     `json:"obs_hash"`
-	Steps     int64      `json:"steps"`
-	Switches  int64      `json:"switches"`
-	Skipped   string     `json:"skipped,omitempty"`
-	RaceText  string     `json:"race_text,omitempty"`
-	Events    []string   `json:"events,omitempty"`
+	EventHash uint64      `json:"event_hash"`
+	ObsHash   uint64      `json:"obs_hash"`
+	Steps     int64       `json:"steps"`
+	Switches  int64       `json:"switches"`
+	Skipped   string      `json:"skipped,omitempty"`
+	RaceText  string      `json:"race_text,omitempty"`
+	Events    []string    `json:"events,omitempty"`
 }
 
 func decodeEvents(ev []uint64) []string {
